@@ -331,29 +331,39 @@ class Derivation(Constraint):
         sustain_count = block.sustain_count(f)
         window = f.levels[0].window
         t = 0
-        delta = window.start_delta * sustain_count
         for n in range(0, trial_count, sustain_count):
             if not f.applies_to_trial(n//sustain_count + 1):
                 continue
             num_levels = len(f.levels)
-            get_trial_size = lambda x: trial_size if x < block.grid_variables() else len(block.decode_variable(x+1)[0].levels)
 
             # Only keep clauses where all `BeforeStarts` apply and all indices are in range:
             ands = []
             for l in self.dependent_idxs:
                 vars = cast(List[int], [])
                 ok = True
-                for x in l:
+                for pos, x in enumerate(l):
                     if isinstance(x, BeforeStart):
                         if x.ready_at <= n:
                             ok = False
                             break
                     else:
-                        new_x = x + ((t + delta) * window.stride * get_trial_size(x) + 1)
-                        if new_x <= 0:
+                        # Indices are grouped by dependent factor, one per position `i` in the window, and
+                        # `shift_window` has moved position `i` forward by `i` trials. Position `i` of the
+                        # window that ends at trial `n` refers to trial `n - (width - 1 - i)`.
+                        i = pos % window.width
+                        dep = window.factors[pos // window.width]
+                        dep_trial = n - (window.width - 1 - i) * sustain_count
+                        if dep.has_complex_window:
+                            # Laid out after the grid, one group per trial since the dependency's own start
+                            dep_trial_size = len(dep.levels)
+                            dep_trial -= dep.first_level.window.start * sustain_count
+                        else:
+                            dep_trial_size = trial_size
+                        if dep_trial < 0:
                             ok = False
                             break
-                        vars.append(new_x)
+                        first_x = cast(int, x) - i * sustain_count * dep_trial_size
+                        vars.append(first_x + dep_trial * dep_trial_size + 1)
                 if ok:
                     ands.append(And(vars))
 
